@@ -44,7 +44,8 @@ def generate(seed: int, tier: str, idx: int) -> dict:
     s = stream(seed, "c17")
     src = s.wpick(SOURCES)
     if src == "edge":
-        sc = gen.gen_scenario(seed, EDGE)
+        surge = stream(seed, "c17.surge").chance(0.2)
+        sc = gen.gen_scenario(seed, dict(EDGE, p_spacing_one=1.0, p_irregular=0.0, p_time_dependent=1.0) if surge else EDGE)
         # start some particles right at the border of the valid region, at the surface and at the bottom
         xlo, xhi, ylo, yhi = truth.valid_region(sc)
         h = truth.bathymetry(sc)
@@ -58,6 +59,11 @@ def generate(seed: int, tier: str, idx: int) -> dict:
             sc["flow"] = dict(keep, kind="const",
                               u0=round(s.pick([-1, 1]) * s.uniform(0.7, 0.95) * float(dx.min()) / dt, 6),
                               v0=round(s.pick([-1, 1]) * s.uniform(0.7, 0.95) * float(dy.min()) / dt, 6))
+        if surge:
+            # slack water turning into a strong current within one time step (a forcing frame at every step)
+            n_fr = len(sc["frames"]["offsets"])
+            for c in ("u", "v"):
+                sc["flow"]["amp_" + c] = [0.03 if k % 2 == 0 else 1.0 for k in range(n_fr)]
         for r in sc["release"]["rows"]:
             if corner_flow and s.chance(0.6):
                 # right in a corner of the valid region
@@ -145,6 +151,9 @@ def execute(sc) -> Result:
             res.probes["rk_stage_clipped"] += 1
         if both:
             res.probes["rk_stage_clipped_in_both_directions"] += 1
+        amps = sc["flow"].get("amp_u") or []
+        if clipped and len(amps) > 1 and min(abs(a) for a in amps) < 0.05:
+            res.probes["rk_stage_clipped_in_a_surging_current"] += 1
         if near:
             res.probes["near_border"] += 1
         res.nontrivial = bool(near or clipped)
